@@ -1,6 +1,8 @@
 import Driver.Util
 import Driver.FeRules
+import Driver.IrCheck
 import StoneVerif.Model.FeCompile
+import StoneVerif.Model.FeAttrVal
 /-!
 `comp.*` ops: the compile model (Model/FeCompile.lean) run on concrete spec ASTs.
 
@@ -17,6 +19,7 @@ import StoneVerif.Model.FeCompile
   `R` = `{"ns":s|null,"name":s,"pos":[A,..],"kw":[[key,L],..],"nullable":b}`; `A` = `L` | `{"ref":R}`;
   `L` = literal in the encoding of `fe.params` (`{"int":"<dec>"}`, `{"float":..}`, `{"str":s}`, `{"bool":b}`, `{"null":true}`)
   reply `{"out":"ok","api":..,"closed":b}` | `{"out":"error","kind":k}`;
+  optional `"ext"` / `"cext"`: the tables of external calls for the values of route attributes (format of `decl.ircheck.*`);
   with `"denote":true` also `"denote":"equal"|"differs"|"none"` (the specification-level image compared).
 `comp.hyps` request as `comp.compile`; reply: the decidable facts the theorems speak about, evaluated.
 -/
@@ -199,8 +202,19 @@ def errName (e : Err) : String :=
   | .crash x => "crash." ++ Driver.FeRules.excStr x
   | e => ((reprStr e).replace "StoneVerif.FeCompile.Err." "").trimAscii.toString
 
-/-- the value test of route attributes: not evaluated yet (every value passes) -/
-def vcOf (_ : Json) : Except String ValCk := pure fun _ _ _ _ _ _ => true
+/-- the value test of route attributes: C10's checker with the external calls answered from the tables of the request
+(`"ext"`: `fltOfInt`, `pat`; `"cext"`: `intExact`, `strptimeOk`, as for `decl.ircheck.*`); `alt` = the answer to a
+call the tables do not have -/
+def vcOf (j : Json) (alt : Bool) : Except String ValCk := do
+  let (ext, cext) ← Driver.IrCheck.tablesOf j
+  pure (attrVal (Driver.Rt.mkExt ext alt) (Driver.IrCheck.mkCExt cext alt))
+
+/-- evaluate under both miss policies: a difference means a table of external calls was incomplete -/
+def bothVc (j : Json) (f : ValCk → Except String Json) : Except String Json := do
+  let a ← f (← vcOf j false)
+  let b ← f (← vcOf j true)
+  if a.compress == b.compress then pure a
+  else pure (Json.mkObj [("protocol_error", "ext-miss"), ("a", a), ("b", b)])
 
 def parseReq (j : Json) : Except String ((String → Bool) × List File) := do
   let rxPairs ← match jopt j "rx" with
@@ -213,9 +227,8 @@ def parseReq (j : Json) : Except String ((String → Bool) × List File) := do
   let files ← (← jarr j "files").toList.mapM fileOfJson
   pure (rx, files)
 
-def handleCompile (j : Json) : Except String Json := do
+def handleCompile (j : Json) : Except String Json := bothVc j fun vc => do
   let (rx, files) ← parseReq j
-  let vc ← vcOf j
   let wantDenote := match jopt j "denote" with
     | some (.bool true) => true
     | _ => false
@@ -273,9 +286,8 @@ def legalWhy (rx : String → Bool) (vc : ValCk) (fs0 : List File) : String :=
 
 /-- the hypotheses of the theorems of Props/C02Compile.lean and Props/C01Compile.lean and their decidable conclusions,
 evaluated on one input: `compileFull fs = .ok api`, `LegalFull fs`, namespace names without `/` -/
-def handleHyps (j : Json) : Except String Json := do
+def handleHyps (j : Json) : Except String Json := bothVc j fun vc => do
   let (rx, files) ← parseReq j
-  let vc ← vcOf j
   let legal := LegalFull rx vc files
   let common : List (String × Json) :=
     [("legal", Json.bool legal), ("ns_lexical", Json.bool (nsLexical files))] ++
